@@ -2085,7 +2085,7 @@ def sink_result_returns(prog: Program) -> list[str]:
         elif isinstance(last, ast.If):
             sink(last.body, r, where, folded)
             sink(last.orelse, r, where, folded)
-        elif isinstance(last, ast.Try) and not any(isinstance(x, ast.Return) for s in last.finalbody for x in ast.walk(s)):
+        elif isinstance(last, ast.Try) and not any(isinstance(x, ast.Return) or (isinstance(x, ast.Name) and x.id == r and not isinstance(x.ctx, ast.Load)) for s in last.finalbody for x in ast.walk(s)):
             sink(last.orelse if last.orelse else last.body, r, where, folded)
             for h in last.handlers:
                 sink(h.body, r, where, folded)
